@@ -26,6 +26,8 @@ theorem C12_roundtrip_rule (r : Rule) (h : RuleWF r) : Rule.fromJson r.toJson = 
     literally (the serialised `length` is redundant with `raw` and is not read back) -/
 theorem C12_roundtrip_field (f : Field) : Field.fromJson f.toJson = .ok f := field_roundtrip f
 
+theorem C12_roundtrip_header (h : HeaderDesc) : HeaderDesc.fromJson h.toJson = .ok h := header_roundtrip h
+
 theorem C12_roundtrip_packet (p : Packet) : Packet.fromJson p.toJson = .ok p := packet_roundtrip p
 
 theorem C12_roundtrip_context (c : Context) (h : ∀ r ∈ c.ruleset, RuleWF r) : Context.fromJson c.toJson = .ok c := context_roundtrip c h
